@@ -3,6 +3,7 @@ package simrt
 import (
 	"fmt"
 	"reflect"
+	"sort"
 )
 
 // Happens-before monitor.  The simulator implements every synchronisation
@@ -349,9 +350,22 @@ func MapDeepRead(v interface{}, site int32) {
 			if ek != reflect.Interface && ek != reflect.Map && ek != reflect.Slice && ek != reflect.Ptr {
 				return
 			}
-			it := x.MapRange()
-			for it.Next() {
-				walk(it.Value(), depth+1)
+			// (visited in an order that is a function of the keys, not of Go's random
+			// iteration: which of several races is reported first must replay)
+			keys := x.MapKeys()
+			names := make([]string, len(keys))
+			for i, k := range keys {
+				if k.CanInterface() {
+					names[i] = fmt.Sprintf("%T|%v", k.Interface(), k.Interface())
+				}
+			}
+			idx := make([]int, len(keys))
+			for i := range idx {
+				idx[i] = i
+			}
+			sort.SliceStable(idx, func(a, b int) bool { return names[idx[a]] < names[idx[b]] })
+			for _, i := range idx {
+				walk(x.MapIndex(keys[i]), depth+1)
 			}
 		case reflect.Slice:
 			if x.IsNil() {
